@@ -536,10 +536,15 @@ def run_real(case):
                 # the keyring already holds cookies of earlier exchanges: expired ones (older than the cookie lifetime),
                 # live ones, one from a clock slightly ahead - none of them is ours, all of them are legal content
                 now = int(__import__('time').time())
-                lines = {'stale': [(50, now - 100)], 'fresh': [(7, now - 5)], 'both': [(3, now - 3600), (9, now - 1), (4, now + 2)]}
+                lines = {'stale': [(50, now - 100)], 'fresh': [(7, now - 5)], 'both': [(3, now - 3600), (9, now - 1), (4, now + 2)],
+                         'damaged': [(5, now - 2)]}
                 with open(os.path.join(scratch, 'org_verif_ctx'), 'wb') as f:
                     for cid_, t_ in lines[case['prefill']]:
                         f.write(b'%d %d %s\n' % (cid_, t_, binascii.hexlify(b'old-cookie-%d' % cid_)))
+                    if case['prefill'] == 'damaged':
+                        # what a crash in the middle of a rewrite, or another program, leaves behind: a truncated entry, a
+                        # blank line, an entry with extra fields, a timestamp that is no number
+                        f.write(b'6 %d\n\n8 %d aabbcc extra\n9 yesterday ddeeff\n' % (now, now))
                 os.chmod(os.path.join(scratch, 'org_verif_ctx'), 0o600)
             r = _exchange(srv, b'AUTH DBUS_COOKIE_SHA1 ' + _hx(ident.encode()))
             if not r or r[0][0] != 'DATA':
@@ -839,7 +844,7 @@ def real_case(draw, tier):
     return {'mech': mech, 'variant': draw(st.sampled_from(COOKIE_VARIANTS)),
             'ident': draw(st.sampled_from(['name', 'uid'])),
             'nonce': draw(st.text(alphabet='abcdef0123', min_size=1, max_size=8)), 'creds': 'none',
-            'prefill': draw(st.sampled_from([None, None, 'stale', 'fresh', 'both'])),
+            'prefill': draw(st.sampled_from([None, None, 'stale', 'fresh', 'both', 'damaged'])),
             'chal': draw(st.sampled_from(['lower', 'lower', 'upper', 'token']))}
 
 
